@@ -5,7 +5,13 @@
 
 package imap
 
-import "time"
+import (
+	"time"
+
+	"github.com/emersion/go-imap/v2/internal/imapnum"
+)
+
+var _ imapnum.Set
 
 // ---------------------------------------------------------------------------
 // C19: And is intersection. Abstract matcher for the scalar fields; list
@@ -213,3 +219,48 @@ func DynamicNumSet(s NumSet) bool {
 	}
 	return false
 }
+
+// ---------------------------------------------------------------------------
+// C15: the typed wrappers forward to imapnum.Set over the same storage (the
+// casts are between slice types with identical element layout): membership,
+// the dynamic test and insertion mean for SeqSet / UIDSet exactly what they
+// mean for the underlying set.
+
+//@ func (s *SeqSet) Contains(num uint32) (result bool)
+//@   props C15:post
+//@   requires s != nil
+//@   ensures imapnum.Canon(s.numSet()) ==> result == (num != 0 && imapnum.InSet(s.numSet(), num))
+
+//@ func (s UIDSet) Contains(uid UID) (result bool)
+//@   props C15:post
+//@   ensures imapnum.Canon(s.numSet()) ==> result == (uid != 0 && imapnum.InSet(s.numSet(), uint32(uid)))
+
+//@ func (s *SeqSet) AddNum(nums ...uint32)
+//@   props C15:callsite,post
+//@   requires s != nil
+//@   callsite Set.AddNum(ps *imapnum.Set, q []uint32) requires len(q) == len(nums) && (forall k int :: 0 <= k && k < len(q) ==> q[k] == nums[k])
+//@   ensures __called("Set.AddNum")
+
+//@ func (s *UIDSet) AddNum(uids ...UID)
+//@   props C15:callsite,post
+//@   requires s != nil
+//@   callsite Set.AddNum(ps *imapnum.Set, q []uint32) requires len(q) == len(uids) && (forall k int :: 0 <= k && k < len(q) ==> q[k] == uint32(uids[k]))
+//@   ensures __called("Set.AddNum")
+
+//@ func (s *SeqSet) AddRange(start, stop uint32)
+//@   props C15:callsite,post
+//@   requires s != nil
+//@   callsite Set.AddRange(ps *imapnum.Set, a uint32, b uint32) requires a == start && b == stop
+//@   ensures __called("Set.AddRange")
+
+//@ func (s *UIDSet) AddRange(start, stop UID)
+//@   props C15:callsite,post
+//@   requires s != nil
+//@   callsite Set.AddRange(ps *imapnum.Set, a uint32, b uint32) requires a == uint32(start) && b == uint32(stop)
+//@   ensures __called("Set.AddRange")
+
+// The constructor inserts only its arguments.
+//
+//@ func SeqSetNum(nums ...uint32) (result SeqSet)
+//@   props C15:callsite,post
+//@   callsite SeqSet.AddNum(ps *SeqSet, q []uint32) requires forall k int :: 0 <= k && k < len(q) ==> exists j int :: 0 <= j && j < len(nums) && nums[j] == q[k]
